@@ -31,6 +31,7 @@ type c14Prog struct {
 	Phases    [][]c14Act `json:"phases"`
 	StoreFail int        `json:"store_fail"` // k-th TopicGet/UsersForTopic/... call fails in phase 1 (0 = none)
 	FailMeth  string     `json:"fail_method"`
+	FailPhase int        `json:"fail_phase,omitempty"` // index of the phase in which the store failure is armed (default: the first)
 }
 
 func genC14(rt *rapid.T) c14Prog {
@@ -63,6 +64,35 @@ func genC14(rt *rapid.T) c14Prog {
 	if rapid.IntRange(0, 3).Draw(rt, "storefail") == 0 {
 		p.StoreFail = rapid.IntRange(1, 8).Draw(rt, "failat")
 		p.FailMeth = rapid.SampledFrom([]string{"TopicGet", "UsersForTopic", "SubsDelete", "SubscriptionGet", "TopicDelete", "UserGet", ""}).Draw(rt, "failmeth")
+	}
+	// Scripted ending, one run in five (drawn last): owner and a member attach to a group; then the owner deletes the
+	// topic while the member's connection goes away, and the store refuses the deletion, so that the topic, paused for
+	// the deletion, resumes. Whether the member's detach notice reaches the topic before, during or after the pause is
+	// the scheduler's choice (fix 75cdefc, seeded change C14-m3).
+	if rapid.IntRange(0, 4).Draw(rt, "script") == 0 && len(p.Sc.Groups) > 0 {
+		g := rapid.IntRange(0, 3).Draw(rt, "scriptgroup") % len(p.Sc.Groups)
+		var members []int
+		for _, m := range p.Sc.Groups[g].Members {
+			if m.User != p.Sc.Groups[g].Owner {
+				members = append(members, m.User)
+			}
+		}
+		if len(members) > 0 {
+			mu := members[rapid.IntRange(0, 7).Draw(rt, "scriptmember")%len(members)]
+			gap := rapid.SampledFrom([]int{0, 0, 1}).Draw(rt, "scriptgap")
+			first := func(u int) int {
+				n := 0
+				for i := 0; i < u; i++ {
+					n += p.Sc.Sessions[i]
+				}
+				return n
+			}
+			oc, mc := first(p.Sc.Groups[g].Owner), first(mu)
+			p.Phases = append(p.Phases,
+				[]c14Act{{Client: oc, Kind: "reconnect", Topic: g}, {Client: mc, Kind: "reconnect", Topic: g}, {Client: oc, Kind: "sub", Topic: g}, {Client: mc, Kind: "sub", Topic: g}},
+				[]c14Act{{Client: oc, Kind: "deltopic", Topic: g}, {Client: mc, Kind: "disc", Delay: gap}})
+			p.StoreFail, p.FailMeth, p.FailPhase = 1, "TopicDelete", len(p.Phases)-1
+		}
 	}
 	return p
 }
@@ -150,7 +180,7 @@ func runC14(t *testing.T, sched simrt.Schedule, prog c14Prog) ([]Violation, RunS
 				}
 				ops[c.Idx] = append(ops[c.Idx], list...)
 			}
-			if pi == 0 && prog.StoreFail > 0 {
+			if pi == prog.FailPhase && prog.StoreFail > 0 {
 				simStore.Fault = &faultPlan{FailAt: prog.StoreFail, FailMethod: prog.FailMeth}
 			}
 			r := w.runPhase(ops)
